@@ -19,7 +19,7 @@ From SPV Require Import Base.Str Model.Subgroups Model.SubgroupsSpec Gen.FactsSu
 (* ---------- C07_fuel: the `itertools.count()` loop terminates; measure = nesting depth of what is unresolved ---------- *)
 Theorem C07_fuel_measure : forall tb argv root d d',
   round_gen tb argv root d = Ok d' -> depth_dc d' <= Nat.pred (depth_dc d).
-Proof. exact (round_measure sub_abbrev_gen inst_default_gen preset_wins_gen). Qed.
+Proof. exact (round_measure sub_abbrev_gen inst_default_gen preset_wins_gen validates_gen). Qed.
 Print Assumptions C07_fuel_measure.
 
 Theorem C07_fuel_done : forall d, unres_dc d = false <-> depth_dc d = 0.
@@ -31,7 +31,7 @@ Theorem C07_fuel : forall tb argv root fuel d,
   depth_dc d <= fuel ->
   resolve_gen fuel tb argv root d <> Err OutOfFuel
   /\ resolve_gen fuel tb argv root d = resolve_gen (depth_dc d) tb argv root d.
-Proof. exact (resolve_fuel sub_abbrev_gen inst_default_gen preset_wins_gen). Qed.
+Proof. exact (resolve_fuel sub_abbrev_gen inst_default_gen preset_wins_gen validates_gen setup_sees_argv_gen). Qed.
 Print Assumptions C07_fuel.
 
 (* ---------- C07_key: every subgroup, at any depth, gets the last key given for it, else its declared default;
@@ -58,7 +58,7 @@ Print Assumptions C07_key_rejected_partial.
    over the declared tree, and `namespace.subgroups` is the list of (destination, chosen key), for every subgroup ---------- *)
 Theorem C07_value_namespace_partial : forall tb argv root d fuel,
   declared_dc d = true -> wf_dc d = true -> str_nodupb (map fst tb) = true -> depth_dc d <= fuel ->
-  forall r v rep, plain_for tb (registered root r) argv = true ->
+  forall r v rep, plain_for tb (registered_gen root r) argv = true ->
   resolve_gen fuel tb argv root d = Ok r -> final_gen tb argv root r = Ok (v, rep) ->
   rep = chosen_of (sg_info_dc root r)
   /\ exists lp soft, sp_dc (intents_of tb argv) root SType d = Some (v, rep, lp, soft).
@@ -103,7 +103,7 @@ Print Assumptions C07_no_crash.
    registers exactly `registered root r` (the leaves and subgroup fields of the chosen entries) ---------- *)
 Theorem C07_foreign_rejected : forall tb argv root r o v,
   In (o, v) argv ->
-  (forall e, In e tb -> prefixb o (fst e) = true -> ~ In (snd e) (registered root r)) ->
+  (forall e, In e tb -> prefixb o (fst e) = true -> ~ In (snd e) (registered_gen root r)) ->
   final_gen tb argv root r = Err (Exit 2).
 Proof. exact foreign_rejected. Qed.
 Print Assumptions C07_foreign_rejected.
@@ -114,7 +114,7 @@ Print Assumptions C07_foreign_rejected.
 Theorem C07_foreign_prefix_witness :
   exists tb argv root d fuel r o v q x,
     declared_dc d = true /\ wf_dc d = true /\ str_nodupb (map fst tb) = true /\ depth_dc d <= fuel /\
-    resolve_gen fuel tb argv root d = Ok r /\ In (o, v) argv /\ exact tb o = Some q /\ ~ In q (registered root r) /\
+    resolve_gen fuel tb argv root d = Ok r /\ In (o, v) argv /\ exact tb o = Some q /\ ~ In q (registered_gen root r) /\
     final_gen tb argv root r = Ok x.
 Proof. exact foreign_exact_refuted. Qed.
 Print Assumptions C07_foreign_prefix_witness.
